@@ -373,8 +373,13 @@ def run(ctx):
                  'a command whose task spec has join can leave '
                  '_configure_if_join unconfigured', ctx.loc(cf))
     uk = prog.func(DWC + '._get_join_unique_key')
-    names = {x.id for x in ast.walk(uk.node) if isinstance(x, ast.Name)}
-    attrs = {norm(x) for x in ast.walk(uk.node)
+    # what the key is made of: the returned expression(s) only
+    kexprs = [x.value for x in own_nodes(uk.node)
+              if isinstance(x, ast.Return) and x.value is not None]
+    kexprs = [U.canon_expr(uk.node, e) for e in kexprs]
+    names = {x.id for e in kexprs for x in ast.walk(e)
+             if isinstance(x, ast.Name)}
+    attrs = {norm(x) for e in kexprs for x in ast.walk(e)
              if isinstance(x, ast.Attribute)}
     r2.check('self.wf_ex.id' in attrs and
              any('get_name' in a for a in attrs) and
